@@ -19,7 +19,7 @@ func storesOf(c *Ctx, field string) ([]FieldWrite, *types.Var) {
 		return nil, nil
 	}
 	var out []FieldWrite
-	for _, w := range c.censusFor(nil).WritersOf(fld) {
+	for _, w := range c.expandSetterWrites(c.censusFor(nil).WritersOf(fld), 0) {
 		if w.Kind == "assign" {
 			out = append(out, w)
 		}
@@ -492,8 +492,8 @@ func init() {
 				info := u.Pkg.TypesInfo
 				fc := c.cfgOf(u, lit)
 				stores := fc.blocksWith(func(n ast.Node) bool {
-					as, ok := n.(*ast.AssignStmt)
-					return ok && len(as.Lhs) == 1 && len(as.Rhs) == 1 && FieldOfSelector(info, as.Lhs[0]) == termFld && isBoolConst(info, as.Rhs[0], true)
+					rhs, rinfo, ok := c.storeNodeOf(info, n, termFld)
+					return ok && isBoolConst(rinfo, rhs, true)
 				})
 				bad := ""
 				nret := 0
